@@ -60,7 +60,12 @@ func main() {
 	if t := os.Getenv("VERIF_TIER"); t != "" && (t == "quick" || t == "thorough") {
 		*tier = t
 	}
-	eng := &Engine{repo: *repo, extraImports: map[string][][2]string{}, noPrune: os.Getenv("GOVC_NOPRUNE") != "", prop: *prop}
+	eng := &Engine{repo: *repo, extraImports: map[string][][2]string{}, noPrune: os.Getenv("GOVC_NOPRUNE") != "", prop: *prop, knownOpen: map[string]bool{}}
+	for _, k := range loadKnown(*verifDir) {
+		if k.Status == "open" {
+			eng.knownOpen[k.Obligation] = true
+		}
+	}
 	if err := eng.Load(); err != nil {
 		msg := err.Error()
 		if lines := strings.Split(msg, "\n"); len(lines) > 12 {
